@@ -18,6 +18,7 @@ Operation vocabulary (JSON lists; h = handle name, p = project index):
   ["update", h, mapping, overwrite]
   ["move", h, p] ["clone", h, p, h2]
   ["ucache", p] ["rmcache", p] ["session", p]
+  ["xinit", p, sp]              ANOTHER session (a Project object of its own) creates the job: open_job(sp).init()
   ["copy", h, h2] ["deepcopy", h, h2] ["pickle", h, h2] ["pickleproc", h, h2] ["drop", h]
   ["plant", p, name[, kind]]    create a foreign entry in the workspace (not via signac): a directory (default),
                                 a regular "file" or a dangling symbolic "link" - the latter two possibly named like an id
@@ -201,6 +202,8 @@ class RealWorld:
                 pass
         elif k == "session":
             P[op[1]] = self.signac.Project(self.paths[op[1]])
+        elif k == "xinit":
+            self.signac.Project(self.paths[op[1]]).open_job(copy.deepcopy(op[2])).init()
         elif k == "copy":
             H[op[2]] = copy.copy(H[op[1]])
         elif k == "deepcopy":
@@ -565,6 +568,9 @@ class PlainModel:
             return "ok"
         if k in ("ucache", "rmcache", "session"):
             return "ok"
+        if k == "xinit":
+            self.projects[op[1]].setdefault(ref_id(op[2]), {"sp": copy.deepcopy(op[2]), "doc": {}, "files": {}})
+            return "ok"
         if k == "copy":
             H[op[2]] = dict(H[op[1]], sp=copy.deepcopy(H[op[1]]["sp"]))
             self.gsize[H[op[1]]["g"]] += 1
@@ -709,7 +715,19 @@ def gen_ops(rng, length, nproj=2, rich=False, weights=None, allow_plant=False):
         elif k == "cache":
             ops.append([rng.choice(["ucache", "ucache", "rmcache"]), rng.randrange(nproj)])
         elif k == "session":
-            ops.append(["session", rng.randrange(nproj)])
+            if rng.random() < 0.5:
+                ops.append(["session", rng.randrange(nproj)])
+            else:
+                # another session creates a job this session may have looked for (and not found) before
+                sp = copy.deepcopy(rng.choice(known_sps)) if known_sps and rng.random() < 0.7 else gen_sp(rng, rich)
+                known_sps.append(sp)
+                p_ = rng.randrange(nproj)
+                if rng.random() < 0.6:
+                    ops.append(["openid", newh(), p_, ref_id(sp)])     # full id, most likely unknown yet
+                ops.append(["xinit", p_, sp])
+                h2 = newh()
+                ops.append(["openid", h2, p_, ref_id(sp)] + (["lazy"] if rng.random() < 0.3 else []))
+                handles.append(h2)
         elif k == "copies":
             h2 = newh()
             ops.append([rng.choice(["copy", "copy", "deepcopy", "pickle"]), rng.choice(handles), h2])
@@ -790,6 +808,8 @@ def model_op(op, cached=None):
         return "clone %s %d %s" % (op[1], op[2], op[3])
     if k in ("ucache", "rmcache", "session"):
         return "%s %d" % (k, op[1])
+    if k == "xinit":
+        return "xinit %d %s" % (op[1], enc_val(op[2]))
     if k in ("copy", "deepcopy", "pickle", "pickleproc"):
         return "%s %s %s" % ("pickle" if k == "pickleproc" else k, op[1], op[2])
     if k == "plant":
@@ -800,7 +820,7 @@ def model_op(op, cached=None):
 def _valid(op, pm):
     """Is the op applicable (its handle operands are defined)?"""
     k = op[0]
-    if k in ("open", "openid", "ucache", "rmcache", "session", "plant", "drop"):
+    if k in ("open", "openid", "ucache", "rmcache", "session", "plant", "drop", "xinit"):
         return True
     if k == "putlink" and op[1] in pm.h:
         # the link's target must be a file of the job with the stated content (a shrunk history may have lost it)
@@ -830,7 +850,7 @@ def lockstep(ops, ctx, nproj=2, check_handles=True, stop_at_first=True):
             if not _valid(op, pm):
                 records.append({"op": op, "skipped": "undefined-operand"})
                 continue
-            if op[0] not in ("open", "openid", "ucache", "rmcache", "session", "plant") and op[1] in tainted:
+            if op[0] not in ("open", "openid", "ucache", "rmcache", "session", "plant", "xinit") and op[1] in tainted:
                 # beyond a recorded finding (F-3d): the handle is inconsistent, nothing is claimed about its use
                 records.append({"op": op, "skipped": "tainted-handle"})
                 if op[0] == "drop":
@@ -844,7 +864,7 @@ def lockstep(ops, ctx, nproj=2, check_handles=True, stop_at_first=True):
                 records.append({"op": op, "skipped": "doc-tainted-handle"})
                 continue
             # which (project, id) does this op act on, and through which group?
-            pre = copy.deepcopy(pm.h.get(op[1])) if k not in ("open", "openid", "ucache", "rmcache", "session", "plant", "drop") else None
+            pre = copy.deepcopy(pm.h.get(op[1])) if k not in ("open", "openid", "ucache", "rmcache", "session", "plant", "drop", "xinit") else None
             if k in ("dset", "ddel", "dclear", "dreset", "clear", "reset"):
                 doc_touched.add(op[1])  # even a refused document operation leaves data in the document object
                 doc_obj.setdefault(op[1], len(doc_obj) + 1000 * i)
